@@ -32,7 +32,8 @@ MStep ==
      /\ scn' = e.scn
      /\ IF e.ev = "Reset" THEN
           /\ S' = [InitS EXCEPT !.open = e.open, !.credits = e.credits]
-          /\ live' = TRUE /\ total' = total + 1 /\ good' = good
+          /\ live' = ~e.burst          \* burst scenarios exceed this replay's bound on handler incarnations: not judged here
+          /\ total' = total + 1 /\ good' = good
         ELSE IF e.ev = "EndScenario" THEN
           /\ good' = IF live THEN good + 1 ELSE good
           /\ live' = FALSE /\ UNCHANGED <<S, total>>
